@@ -239,6 +239,7 @@ def main(argv=None):
     samples = []
     xc_tot = {"contracts": 0, "samples": 0, "compared_equal": 0, "skipped_abstract": 0, "ambiguous": 0, "mismatches": 0, "not_applicable": 0}
     canary = {"witnessed": 0, "unknown": 0}
+    second = {}
     for rep in reports:
         xc = rep.get("crosscheck")
         if xc is not None:
@@ -252,6 +253,8 @@ def main(argv=None):
                 xc_tot["ambiguous"] += xc.get("ambiguous", 0)
                 xc_tot["mismatches"] += xc.get("n_mismatches", 0)
         for ob in rep["obligations"]:
+            for k_, v_ in (ob.get("recheck") or {}).items():
+                second[k_] = second.get(k_, 0) + v_
             if ob.get("canary") is True:
                 canary["witnessed"] += 1
             elif ob.get("canary") == "unknown":
@@ -368,6 +371,7 @@ def main(argv=None):
         "bounded": bcov,
         "cpython_crosscheck": {**xc_tot, "what": "path summaries (path condition -> result term / raised class) of every contract whose call takes scalar inputs and uses no callee summary, evaluated on sampled concrete inputs and compared with the real function under CPython; a mismatch is a checker error"},
         "engine_conformance": ({k: (len(v) if isinstance(v, list) else v) for k, v in conf.items()} if conf is not None else None),
+        "second_solver_recheck": ({**second, "what": "thorough tier: every unsat answer of z3 re-submitted to cvc5; sat = solver disagreement (checker error)"} if second else None),
         "canary": {**canary, "what": "discharged obligations with a feasible path on which the claim is satisfiable (a discharged obligation with none is a checker error: vacuous)"},
         "not_covered": ncov,
         "known_findings": [f["what"] for _i, f in known],
